@@ -41,7 +41,7 @@ VALUES = {
     'pkl': [7, 'v', 2.5, None, (1, 'a'), [1, (2,)], {'a': (1,)}, 'x' * 20000, b'\x00' * 9000],
 }
 
-OPS = [(10, 'set'), (6, 'update'), (5, 'del'), (4, 'pop'), (2, 'popitem'), (3, 'clear'),
+OPS = [(10, 'set'), (6, 'update'), (3, 'update_from'), (5, 'del'), (4, 'pop'), (2, 'popitem'), (3, 'clear'),
        (4, 'dump'), (2, 'dump_k'), (2, 'sync'), (1, 'sync_clear'), (5, 'open'), (3, 'open_seed'),
        (2, 'setdefault'), (2, 'popkeys')]
 
@@ -82,7 +82,7 @@ def generate(rng, prop, tier):
         op['k'], op['v'] = anyk(), enc(pick_v())
     elif kind in ('del', 'pop'):
         op['k'] = pre[rng.below(len(pre))][0] if pre and rng.chance(0.85) else anyk()
-    elif kind in ('update', 'dump', 'sync', 'sync_clear', 'open_seed'):
+    elif kind in ('update', 'dump', 'sync', 'sync_clear', 'open_seed', 'update_from'):
         op['m'] = [[anyk(), enc(pick_v())] for _ in range(rng.randint(1, 3))]
         if kind == 'open_seed':
             op['cached'] = rng.chance(0.5)
@@ -171,7 +171,7 @@ def model_after(pre, op):
     elif k == 'clear':
         touched.update(hk(x) for x in m)
         m = {}
-    elif k in ('update', 'dump', 'sync', 'open_seed'):
+    elif k in ('update', 'dump', 'sync', 'open_seed', 'update_from'):
         for a, b in op['m']:
             m[dec(a)] = dec(b)
             touched.add(hk(dec(a)))
@@ -217,6 +217,11 @@ def apply_op(cfg, root, op):
                seed=dict((dec(a), dec(b)) for a, b in op['m']))
         return None
     a = B.make(cfg, root, cached=False)
+    if k == 'update_from':
+        # merge another archive OBJECT of the same kind and settings (e.g. a per-worker archive) into this one
+        src = B.make(dict(cfg, name='src'), root, cached=False)
+        a.update(src)
+        return None
     if k == 'set':
         a[dec(op['k'])] = dec(op['v'])
     elif k == 'setdefault':
@@ -360,6 +365,9 @@ def execute(case, prop, ctx):
                 a.update(pre)
                 for _ in range(case.get('history') or 0):
                     a.update(pre)           # re-store the same contents: history rows, same dictionary
+            if op['op'] == 'update_from':
+                src = B.make(dict(cfg, name='src'), snap, cached=False)
+                src.update(dict((dec(x), dec(y)) for x, y in op['m']))
         return {'ok': True}
     code, out = in_child(build)
     if code != 0:
